@@ -533,6 +533,7 @@ func checkC09(r *Run) {
 		c.st.Transitions++
 		c.st.States++
 		c.st.Nontrivial++
+		c.st.Outcomes[fmt.Sprintf("kind=%d via=%v values=%d", cs.Hdr, cs.Via, len(cs.Vals)+len(cs.Vals2))]++
 		for _, v := range vs {
 			r.Col.add(v)
 		}
